@@ -41,6 +41,8 @@ CONSTANTS Actors,        \* actor incarnation ids (naturals)
           SupCap,        \* capacity of the supervisor's mailbox
           PreMayFail, PostMayFail, StopHooksMayFail,   \* BOOLEAN
           DrainOnClose,  \* FALSE = code as it is (deviation), TRUE = repaired
+          ReserveIgnoresStarting,  \* FALSE = code as it is: an entry that is only reserved (actor still in pre_start)
+                                   \* counts as taken; TRUE = control variant, must violate RegistrySound
           ReportBeforeRelease   \* FALSE = code as it is: a failed start frees the name BEFORE the failure is reported;
                                 \* TRUE = control variant (release only after the report), must violate FailedStartFreesName
 
@@ -162,7 +164,7 @@ SpawnReserve(p) ==
   LET a == op[p].a
       nm == aname[a] IN
   /\ op[p].t = "spawn" /\ op[p].st = "reserve"
-  /\ IF nm # NoName /\ regOwner[nm] # NoActor
+  /\ IF nm # NoName /\ regOwner[nm] # NoActor /\ (ReserveIgnoresStarting => regActive[nm])
        THEN /\ op' = [op EXCEPT ![p].st = "ret", ![p].res = "nametaken"]
             /\ SetPhase(a, "rejected")
             /\ UNCHANGED rvars
@@ -172,6 +174,11 @@ SpawnReserve(p) ==
             /\ UNCHANGED regActive
   /\ UNCHANGED <<queue, stopq, stopping, rxopen, cur, exit, startmsg, aname, acap, asup, selfstop, reply, bud,
                  gvars, supq, hvars>>
+
+\* the actor task entered pre_start: its spawn was admitted (observation only)
+StartEnter(a) ==                                        \* logged: start.enter
+  /\ phase[a] = "dispatched"
+  /\ UNCHANGED vars
 
 PreStart(a, ok) ==                                      \* logged: hook pre_start
   /\ phase[a] = "dispatched"
